@@ -74,6 +74,22 @@ def m_tc28(ctx, case):
     ctx.hit("tc28")
 
 
+def _squawk_table():
+    """13-bit identity field -> 'ABCD', by running the forward interleaver of the reference over all digits and both X bits"""
+    from ..ref import alt as ralt
+    t = {}
+    for a in range(8):
+        for b in range(8):
+            for c in range(8):
+                for d in range(8):
+                    for x in (0, 1):
+                        t[ralt.identity_code13(a, b, c, d, x)] = "%d%d%d%d" % (a, b, c, d)
+    return t
+
+
+_SQ = _squawk_table()
+
+
 def m_tc28grid(ctx, case):
     """every Mode A code field x every emergency state: the predicate reads the state field and nothing else (a "helpful"
     predicate that also looks at the squawk - 7500 / 7600 / 7700 - is wrong on 6 of 8192 code values only)"""
@@ -93,6 +109,11 @@ def m_tc28grid(ctx, case):
                     ctx.violation("is_emergency-wrong", frame=hx, observed=r[1:], note="bool expected")
             r = call(adsb.emergency_state, hx)
             chk(ctx, "emergency_state", hx, r, r[1:] == (state,), state)
+            if state == sq % 8:
+                # ... and the squawk of the same message: the four octal digits as transmitted, leading zeros included
+                r = call(adsb.emergency_squawk, hx)
+                exp = _SQ.get(sq)
+                chk(ctx, "emergency_squawk", hx, r, r[0] == "ok" and r[1] == exp and type(r[1]) is str, exp)
         ctx.nontrivial(("28g", sq))
     ctx.hit("tc28_every_squawk_x_state")
 
